@@ -220,6 +220,13 @@ func (c *Channel) JoinPresence(ctx context.Context, p stanza.Presence, opt ...Op
 	c.client.managed[c.addr.String()] = c
 	c.client.managedM.Unlock()
 
+	// A departure recorded during an earlier membership (eg. if the room removed
+	// us and nobody called Leave) must not end the Leave of this one.
+	select {
+	case <-c.depart:
+	default:
+	}
+
 	ctx, cancel := context.WithCancel(ctx)
 	defer cancel()
 
